@@ -1,24 +1,28 @@
 #!/usr/bin/env python3
-"""Re-runs all 18 quick checks against every stored seeded change (applied to /repo, then undone) and updates meta.json."""
+"""Re-runs all 18 quick checks against every stored seeded change, applied IN MEMORY (flamecheck -patch),
+and updates meta.json (checks_fired, detected_by_own_property_check). /repo is not touched."""
 import json, subprocess, re, glob, os, sys
+from concurrent.futures import ThreadPoolExecutor
 PROPS = ["C%02d" % i for i in range(1, 19)]
-st = subprocess.run("git -C /repo status --porcelain", shell=True, capture_output=True, text=True).stdout.strip()
-if st:
-    raise SystemExit("/repo not clean")
+def run(args):
+    d, p = args
+    r = subprocess.run("./bin/flamecheck -patch %s/patch.diff -property %s -tier quick -no-evidence" % (d, p), shell=True, cwd="/verif", capture_output=True, text=True)
+    if r.returncode != 0:
+        return d, p, sorted(set(re.findall(r"rule=(C\d+\.\w+)", r.stdout)))
+    return d, p, None
+dirs = [os.path.dirname(f) for f in sorted(glob.glob('/verif/seeded/*/meta.json'))]
+jobs = [(d, p) for d in dirs for p in PROPS]
+res = {}
+with ThreadPoolExecutor(max_workers=14) as ex:
+    for d, p, fired in ex.map(run, jobs):
+        if fired is not None:
+            res.setdefault(d, {})[p] = fired
 bad = 0
-for f in sorted(glob.glob('/verif/seeded/*/meta.json')):
-    d = os.path.dirname(f)
+for d in dirs:
+    f = d + '/meta.json'
     m = json.load(open(f))
     prop = m['property']
-    subprocess.run("git -C /repo apply %s/patch.diff" % d, shell=True, check=True)
-    fired = {}
-    try:
-        for p in PROPS:
-            r = subprocess.run("./bin/flamecheck -property %s -tier quick -no-evidence" % p, shell=True, cwd="/verif", capture_output=True, text=True)
-            if r.returncode != 0:
-                fired[p] = sorted(set(re.findall(r"rule=(C\d+\.\w+)", r.stdout)))
-    finally:
-        subprocess.run("git -C /repo checkout -- .", shell=True, check=True)
+    fired = res.get(d, {})
     if 'checks_fired_first_version' not in m:
         old = m.get('checks_fired', {})
         m['checks_fired_first_version'] = {k: (v['rules'] if isinstance(v, dict) else v) for k, v in old.items()}
@@ -28,5 +32,5 @@ for f in sorted(glob.glob('/verif/seeded/*/meta.json')):
     json.dump(m, open(f, 'w'), indent=1)
     if prop not in fired:
         bad += 1
-    print(m['id'], 'own:', 'FIRED' if prop in fired else 'SILENT', fired if prop not in fired else ','.join(fired[prop]))
-print('own-check misses:', bad)
+        print(m['id'], 'own: SILENT', fired)
+print('seeded changes:', len(dirs), 'own-check misses:', bad)
